@@ -29,6 +29,18 @@ CHECKS.update({
         text='TLC enumerates typed expression families (HplTypedGen: all depth-2 arithmetic/boolean terms, comparisons of depth-1 terms, every built-in function on every argument shape, sets, ranges, quantifiers); each is parsed and simplified by the real code and the trace spec T_C08 evaluates input and output with the exact-rational denotational semantics HplEval on a grid of valuations (strict input, Kleene output), checks kind/type preservation, HplAst!WT of the output, the vacuous-predicate rule, and that an exception is allowed only when the spec finds an identically-zero divisor or an undefined constant sub-term.',
         note='Semantics of HplEval are a modelling decision (DESIGN section 10); float folding and transcendental functions are outside the exact model and counted as skipped; valuation grid of small values.',
         technique='trace validation against denotational semantics in TLA+ (HplEval, T_C08) over TLC-enumerated typed families', design='5/C08'),
+    'C09': dict(
+        text='split_and is run on TLC-enumerated boolean families (propositional structure with aliases, quantifiers over arrays/sets/ranges incl. empty domains); T_Rewrite checks with HplEval that the Kleene conjunction of the returned parts equals the input on every valuation where the input is defined, that every part is exactly BOOL, well-typed and of indivisible shape, and that ValueError occurs only with a literal False in an input that is true on no valuation.',
+        note='Bounded families and valuation grid; semantics per HplEval.', technique='trace validation against HplEval (T_Rewrite) over TLC-enumerated typed families', design='5/C09'),
+    'C10': dict(
+        text='refactor_reference is run with present, decoy and absent aliases on TLC-enumerated boolean families; T_Rewrite checks f1 /\\ f2 == f on all valuations (HplEval), f1 free of the alias, no bound variable escaping (ExtRefs), and the unchanged-with-True result when the alias is absent.',
+        note='Bounded families and valuation grid; "f itself" is accepted as the same object or an equal value.', technique='trace validation against HplEval/HplAst (T_Rewrite) over TLC-enumerated typed families', design='5/C10'),
+    'C13': dict(
+        text='negate, join (with vacuous operands), both this/var replacements (with round trip) and aliased event construction are run on TLC-enumerated families that place a this-rooted and an alias-rooted reference in every child slot; T_Rewrite checks negation/conjunction semantics with HplEval, exact structural substitution (HplAst!Subst) and meaning under the corresponding binding, identity/annihilator laws, and that an event never lists its own alias as external.',
+        note='Bounded families and valuation grid.', technique='trace validation against HplEval/HplAst (T_Rewrite) over TLC-enumerated typed families', design='5/C13'),
+    'C14': dict(
+        text='Every rewriting function is called on the typed families, on API-built multi-argument function calls and on enumerated properties; T_Rewrite accepts an exception only where the statement allows it (simplify: identically-zero divisor / undefined constant found by HplEval; split_and: literal False and never true; replacements on predicates: TypeError iff two references of disjoint types coincide) and checks the documented result kind.',
+        note='Bounded families; one recorded finding (known_findings.json).', technique='trace validation of outcome classes and result kinds (T_Rewrite) over TLC-enumerated inputs', design='5/C14'),
 })
 
 REASON_PENDING = 'check not built yet in this session (planned in DESIGN.md section 5); not claimed until its machinery exists'
